@@ -38,6 +38,9 @@ def pipeline(tier):
     vecs = [list(v) for v in itertools.product(["same", "changed"], repeat=9)]
     full = itertools.product(["same", "changed", "added", "removed"], repeat=9)
     vecs += [list(v) for v in full if quick is False or rnd.random() < 0.012]
+    # parts that hold equal values written differently (1 and 1.0), alone and next to changed parts
+    vecs += [list(v) for v in itertools.product(["same", "changed", "rewritten"], repeat=9)
+             if "rewritten" in v and (quick is False or rnd.random() < 0.08)]
     rcases = os.path.join(wd, "reason-cases.ndjson")
     with open(rcases, "w") as f:
         for i, v in enumerate(vecs):
